@@ -54,3 +54,42 @@ theorem arrayLeaf_len {r rest : List Tok} {t : PExp} (h : arrayLeaf r = .ok (t, 
   all_goals first | (cases h; done) | skip
   all_goals grind
 
+theorem graphEdges_len (f : Nat) (toks : List Tok) (acc es : List GEdge) (rest : List Tok)
+    (h : graphEdges f toks acc = some (es, rest)) : rest.length < toks.length := by
+  induction f generalizing toks acc es rest with
+  | zero => simp [graphEdges] at h
+  | succ f ih =>
+    simp only [graphEdges] at h
+    have := skipNl_len
+    repeat' split at h
+    all_goals first | (cases h; done) | skip
+    all_goals grind
+
+theorem graphNode_len {toks rest : List Tok} {n : GNode} (h : graphNode toks = some (n, rest)) : rest.length < toks.length := by
+  simp only [graphNode] at h
+  have := graphEdges_len
+  repeat' split at h
+  all_goals first | (cases h; done) | skip
+  all_goals grind
+
+theorem graphTail_len (f : Nat) (toks : List Tok) (acc ns : List GNode) (rest : List Tok)
+    (h : graphTail f toks acc = some (ns, rest)) : rest.length < toks.length := by
+  induction f generalizing toks acc ns rest with
+  | zero => simp [graphTail] at h
+  | succ f ih =>
+    simp only [graphTail] at h
+    have := skipNl_len
+    have := @graphNode_len
+    repeat' split at h
+    all_goals first | (cases h; done) | skip
+    all_goals grind
+
+theorem graphLeaf_len {r rest : List Tok} {t : PExp} (h : graphLeaf r = some (t, rest)) : rest.length < r.length := by
+  simp only [graphLeaf, graphNodes] at h
+  have := skipNl_len
+  have := graphTail_len
+  have := @graphNode_len
+  repeat' split at h
+  all_goals first | (cases h; done) | skip
+  all_goals grind
+
